@@ -12,7 +12,9 @@ Exit 1: VIOLATION line printed.  Exit 2: harness/build trouble (never a verdict)
 import json, os, shutil, subprocess, sys, tempfile, time, hashlib, glob
 
 VERIF = os.path.dirname(os.path.abspath(__file__))
-REPO = "/repo"
+# registered commands always build from /repo; VERIF_REPO is a development aid
+# (seeded changes are tried in scratch worktrees without touching /repo)
+REPO = os.environ.get("VERIF_REPO", "/repo")
 GO = "go1.26.8"
 ENV = dict(os.environ, GOFLAGS="-mod=mod", GOPROXY="off", GOSUMDB="off", GOTOOLCHAIN="local",
            PATH="/opt/veriftools/go1.26.8/bin:" + os.environ.get("PATH", ""))
@@ -101,7 +103,7 @@ def run_workers(binp, prop, tier, seed, runs, budget_s, workdir, nworkers, extra
     procs = []
     outs = []
     env = dict(ENV)
-    env["VERIF_REPLAY_DIR"] = replay_dir or os.path.join(VERIF, "replays")
+    env["VERIF_REPLAY_DIR"] = replay_dir or os.environ.get("VERIF_REPLAY_DIR") or os.path.join(VERIF, "replays")
     ws = os.path.join(workdir, "ws")
     for i in range(nworkers):
         out = os.path.join(workdir, "out-%d.jsonl" % i)
@@ -148,7 +150,7 @@ def classify_dead(workdir, i):
         frames = [l for l in seg.splitlines() if l.startswith("\t/") or l.startswith("\t")]
         files = [l.strip().split(":")[0] for l in frames]
         files = [f for f in files if "/go1.26.8/" not in f and "/opt/veriftools/" not in f]
-        if files and files[0].startswith("/repo/") and "zz_verif_" not in files[0]:
+        if files and files[0].startswith(REPO + "/") and "zz_verif_" not in files[0]:
             return "sut-panic", seg
         if "found pointer to free object" in txt or "fatal error:" in txt and "sync:" not in txt and not files:
             return "runtime", seg
@@ -318,8 +320,10 @@ def write_evidence(prop, tier, seed, meta, results, dead, violations, knowns, wa
         "wall_s": round(wall, 1),
         "violations": len(violations),
     }
-    os.makedirs(os.path.join(VERIF, "evidence"), exist_ok=True)
-    json.dump(ev, open(os.path.join(VERIF, "evidence", prop + ".json"), "w"), indent=1)
+    # development runs against a scratch worktree must not replace the evidence of /repo
+    evdir = os.path.join(VERIF, "evidence") if REPO == "/repo" else os.environ.get("VERIF_EVIDENCE_DIR", "/tmp/verif-evidence-scratch")
+    os.makedirs(evdir, exist_ok=True)
+    json.dump(ev, open(os.path.join(evdir, prop + ".json"), "w"), indent=1)
 
 
 if __name__ == "__main__":
